@@ -151,6 +151,8 @@ var propC17 = register(&Property{
 })
 
 func genC17(rt *rapid.T, st *Stats) *ScaleCase {
+	dyadicOnly = true // exact power-of-two scaling is only claimed on values that keep the arithmetic exact
+	defer func() { dyadicOnly = false }()
 	maxN, maxM, _ := sizeRegime(rt, 930, 65, 5)
 	_, ies, _ := genGraph(rt, GraphSpec{MaxN: maxN, MaxM: maxM, Families: allFam, Union: true, SelfLoops: true, Parallel: true})
 	c := &Case{Edges: toEdges(ies, nid)}
